@@ -64,7 +64,7 @@ def evaluate(cases, static=True, sem=True, maxsteps=20000, dumps=False, name="en
         for c in cases:
             if c["id"] in res:
                 r = res[c["id"]]
-                c["sem"] = {"status": r["status"], "why": r["why"], "out": bytes(r["out"])[:4000], "steps": r["steps"]}
+                c["sem"] = {"status": r["status"], "why": r["why"], "out": bytes(r["out"]), "steps": r["steps"]}
     return stats
 
 
